@@ -19,7 +19,7 @@ func zzWBig(x *big.Int) zzW {
 
 //zz: prop=C17 tier=quick backend=lia timeout=300 maxpaths=200 budget=900
 func ZZ_C17_tssrsa_computePolynomial_is_exact() {
-	const k = 14
+	k := uint(zzT(14, 22))
 	cs := make([]uint64, k)
 	for i := range cs {
 		cs[i] = 0x9e3779b97f4a7c15 * uint64(i+1)
@@ -31,12 +31,16 @@ func ZZ_C17_tssrsa_computePolynomial_is_exact() {
 	for i := range a {
 		a[i] = new(big.Int).SetUint64(cs[i])
 	}
-	x := uint(zzPick("x", 1, 2, 7, 23, 29, 30))
+	xs := []int{1, 2, 7, 23, 29, 30}
+	if zzThorough() {
+		xs = append(xs, 3, 5, 11, 13, 17, 19, 25, 27, 28)
+	}
+	x := uint(zzPick("x", xs...))
 	m := new(big.Int).Lsh(big.NewInt(1), 200)
 	got := computePolynomial(k, a, x, m)
 	want := zzWConst("0")
 	pw := big.NewInt(1)
-	for i := 0; i < k; i++ {
+	for i := 0; i < int(k); i++ {
 		want = zzWAdd(want, zzWMulC(zzWU(cs[i]), pw.String()))
 		pw.Mul(pw, big.NewInt(int64(x)))
 	}
